@@ -52,10 +52,27 @@ def h1(ctx):
             names = [e.name for e in p.events if e.kind == 'call']
             allowed = {'std::ops::Deref::deref', 'lock_api::Mutex::' + want, 'std::sync::Mutex::' + want,
                        'std::result::Result::unwrap', 'std::result::Result::ok'}
+            core = r
+            # a crate-private newtype around the guard (with Deref/DerefMut and no Drop of its own): `Guard(m.lock())` /
+            # `m.try_lock().map(Guard)`
+            wrapper = None
+            if core is not None and core[0] == 'agg' and len(core[3]) == 1 and core[1] in ctx.facts.adts_by_canon():
+                wrapper = core[1]
+                core = core[3][0]
+            elif core is not None and core[0] == 'call' and core[2] == 'std::option::Option::map' and len(core[3]) == 2 and core[3][1][0] == 'fnptr' \
+                    and core[3][1][1] in ctx.facts.adts_by_canon():
+                wrapper = core[3][1][1]
+                core = core[3][0]
+                allowed.add('std::option::Option::map')
+            if wrapper is not None:
+                wa = ctx.facts.adts_by_canon()[wrapper]
+                nf = sum(len(v['fields']) for v in wa['variants'])
+                has_drop = any(i.get('of_trait') and canon(i.get('trait', '')) == 'std::ops::Drop' and canon(i.get('self_ty', '')).split('<')[0] == wrapper for i in ctx.facts.impls)
+                if nf != 1 or has_drop:
+                    ctx.violate(key, p, '%s wraps the guard in %s, which is not a plain single-field newtype without Drop' % (key, wrapper))
             for n in names:
                 if n not in allowed:
                     ctx.violate(key, p, '%s calls %s' % (key, n))
-            core = r
             if ctx.std_mutex():
                 if core is not None and core[0] == 'call' and core[2] in ('std::result::Result::unwrap', 'std::result::Result::ok'):
                     core = core[3][0]
@@ -327,6 +344,26 @@ def closure_is_eq_sig(ctx, clo):
     return (sides[0] and sides[3]) or (sides[1] and sides[2])
 
 
+def closure_terminates_arg(ctx, clo):
+    """closure `|t| t.terminate()`: exactly one SignalTerminator::terminate, applied to its argument, nothing else"""
+    b = ctx.facts.bodies.get(clo[2])
+    if b is None:
+        return False
+    ps = b.paths(1) or []
+    rets = [p for p in ps if p.end == 'return']
+    if len(rets) != 1 or len(ps) != len(rets):
+        return False
+    import sem as _sem
+    evs = _sem.project(rets[0])
+    terms = [e for e in evs if e.name == 'SIGTERM']
+    if len(terms) != 1:
+        return False
+    a0 = terms[0].data['args'][0] if terms[0].data['args'] else None
+    if a0 is None or not contains(a0, ('param', 2)):
+        return False
+    return not any(e.name in ('WR', 'SIGSEND', 'SIGRECV') or e.name.startswith(('Q.', 'WL.')) for e in evs)
+
+
 def enumerate_of_plain_iter(item):
     """item = payload of next(&mut it) where it = [into_iter(] enumerate( VecDeque::iter(&wait_list) ) [)]"""
     # item = ('field', ('downcast', nextcall, 'Some'), '0')
@@ -393,6 +430,22 @@ def h6(ctx):
                     ctx.violate(key, p, 'terminate() applied to something other than the removed entry', at=t_.at)
             if any(e.name == 'WR' or e.name.startswith('Q.') for e in evs):
                 ctx.violate(key, p, 'terminate_signals changes other channel state')
+            continue
+        fe = [e for e in evs if e.name == 'CALL' and e.data['callee'] == 'std::iter::Iterator::for_each']
+        if fe and [m.name for m in muts] == ['WL.clear']:
+            # `wait_list.iter().for_each(|t| t.terminate()); wait_list.clear()`
+            a = fe[0].data['args']
+            src = a[0] if a else None
+            if src is not None and src[0] in ('ref', 'rawptr') and len(src) > 2 and src[2] is not None:
+                src = src[2]
+            from mir import ci_field_ref
+            ok_src = src is not None and src[0] == 'call' and src[2] == 'std::collections::VecDeque::iter' and ci_field_ref(src[3][0]) == 'wait_list'
+            clo = a[1] if len(a) > 1 else None
+            if len(fe) == 1 and ok_src and clo is not None and clo[0] == 'agg' and clo[1] == 'closure' and closure_terminates_arg(ctx, clo) and fe[0].idx < muts[0].idx \
+                    and not any(e.name == 'WR' or e.name.startswith('Q.') for e in evs):
+                some_term = True
+                continue
+            ctx.violate(key, p, 'terminate_signals: for_each is not `wait_list.iter().for_each(|t| t.terminate())` followed by clear()')
             continue
         if [m.name for m in muts] != ['WL.clear']:
             ctx.violate(key, p, 'terminate_signals must end with exactly one wait_list.clear() (mutators: %s): a terminated waiter left in the list would be touched again' % [m.name for m in muts])
